@@ -76,7 +76,7 @@ pub fn judge(ctx: &mut Ctx, c: &Case) {
     precall(&ce);
     let res = catch(|| nested::polygon_coverage(depth, &poly, exact));
     postcall();
-    let b = match res { Ok(b) => b, Err(p) => { ctx.violation("polygon_coverage-panics", ce.clone().s("at", panic_loc(&p)), p); continue; } };
+    let b = match res { Ok(b) => b, Err(p) => { let msg: String = p.chars().take(48).collect(); ctx.violation("polygon_coverage-panics", ce.clone().s("at", panic_loc(&p)).s("msg", &msg), p); continue; } };
     let c09 = ctx.prop == "C09";
     let cells = match walk(&b, 100_000) { Ok(_) => cells_of(&b), Err(e) => { ctx.violation(if c09 { "malformed-bmoc-from-polygon_coverage" } else { "polygon_coverage-result-not-well-formed" }, ce.clone(), e); continue; } };
     if b.get_depth_max() != depth { ctx.violation("polygon_coverage-depth_max-not-the-query-depth", ce.clone(), format!("{}", b.get_depth_max())); }
